@@ -51,7 +51,7 @@ PROPS = {
     },
     "C10": {
         "case_sets": ["parse"],
-        "ops": ["PARSE", "PARSEV"],
+        "ops": ["PARSE", "PARSEV", "LINECOL"],
         "oracle_clauses": [r"c10-.*", r"unreadable-.*"],
         "lean_targets": ["PqlModel.Props.C10", "PqlModel.Props.C08Full"],
         "facts": ["structFields", "spanUnion"],
